@@ -55,7 +55,8 @@ WANTED = [("sbdfstring.c", "sbdf_convert_utf8_to_iso88591"), ("sbdfstring.c", "s
           # skipping: objects, value arrays (the shared reader / skipper sbdf_read_valuearray_int is translated IN PART: what it
           # does with a non-null handle - allocation, reading into structs - becomes SFault, so only its skipping paths can run)
           ("object.c", "sbdf_skip_objects"), ("object.c", "sbdf_obj_skip_arr"), ("object.c", "sbdf_obj_skip"),
-          ("valuearray.c", "sbdf_read_valuearray_int"), ("valuearray.c", "sbdf_va_skip"), ("columnslice.c", "sbdf_cs_skip")]
+          ("valuearray.c", "sbdf_read_valuearray_int"), ("valuearray.c", "sbdf_va_skip"), ("columnslice.c", "sbdf_cs_skip"),
+          ("object.c", "sbdf_read_objects"), ("object.c", "sbdf_obj_read_arr"), ("object.c", "sbdf_obj_read")]
 PARTIAL = {"sbdf_read_valuearray_int"}          # untranslatable statements of these become SFault instead of failing the function
 IN_PARTIAL = [False]
 GLOBAL_VT = {}          # file-level sbdf_valuetype variables that are initialised with a literal and never written: name -> id
@@ -97,6 +98,9 @@ def call_stmt(ret, n, scope, value_args_only=False):
         if u.get("kind") == "UnaryOperator" and u.get("opcode") == "&" and member_cell(unparen(u["inner"][0]), scope) is not None and not value_args_only:
             p_, fp, idx, isp = member_cell(unparen(u["inner"][0]), scope)
             if fp.w or fp.io: raise Untranslatable("address of a field reached through side effects")
+            # only a callee that takes a void** works on the cell itself (sbdf_alloc); every other pointer-to-pointer parameter is an
+            # out-cell handed over by copy-in / copy-out, which the address of a field cannot be
+            if norm_t(qt(unparen(a))) != "void**": raise Untranslatable("the address of a field passed as " + qt(unparen(a)))
             args.append("(AVal (EFieldAddr %s (EConst %d)))" % (p_, idx)); continue
         if u.get("kind") == "UnaryOperator" and u.get("opcode") == "&":
             t = unparen(u["inner"][0])
@@ -107,7 +111,7 @@ def call_stmt(ret, n, scope, value_args_only=False):
             v = var_of(t, scope)
             if v is None or qt(t) not in ("int", "sbdf_valuetype"): raise Untranslatable("address of something that is not an int local")
             cells.append(v); args.append('(AAddr "%s")' % v); continue
-        if u.get("kind") == "DeclRefExpr" and u.get("referencedDecl", {}).get("kind") == "ParmVarDecl" and qt(u).replace(" ", "") in CELLPTR:
+        if u.get("kind") == "DeclRefExpr" and u.get("referencedDecl", {}).get("kind") == "ParmVarDecl" and (qt(u).replace(" ", "") in CELLPTR or (is_pp(qt(u)) and norm_t(qt(u)) != "void**" and norm_t(qt(unparen(a))) != "void**")):
             nm = u["referencedDecl"]["name"]; OUTPARAMS.add("*" + nm); cells.append("*" + nm); args.append('(AFwd "%s")' % nm); continue
         e, f = expr(a, scope)
         if (f.w or f.io) and len(n["inner"]) != 2: raise Untranslatable("argument with side effects")    # a single argument: nothing to be ordered against
@@ -351,6 +355,27 @@ def expr(n, scope):
                 if fc.w or fc.io: raise Untranslatable("fread count with side effects")
                 f = Fx(); f.io = True; f.r.add(pv); f.r |= fc.r
                 return '(EReadBuf (EVar "%s") %s)' % (pv, cnt), f
+            def side_effect_free_ptr(x):
+                """*dest with dest a local pointer into an array of pointers, or a pointer field p->f: a char* read from a cell"""
+                x0 = strip_casts(x)
+                if x0.get("kind") == "UnaryOperator" and x0.get("opcode") == "*" and cellarr_local(strip_casts(x0["inner"][0]), scope): return True
+                if member_cell(x0, scope) is not None and is_ptr_t(qt(x0)): return True
+                return False
+            if cname == "fread" and fparam and side_effect_free_ptr(n["inner"][1]) and const_of(a1) == 1 and const_of(a2) is None:
+                # fread(q, 1, n, f) with q read from a cell
+                pe, fp = expr(n["inner"][1], scope)
+                cnt, fc = expr(n["inner"][3], scope)
+                if fp.w or fp.io or fc.w or fc.io: raise Untranslatable("fread arguments with side effects")
+                f = fx_join(fp, fc); f.io = True
+                return "(EReadBuf %s %s)" % (pe, cnt), f
+            if cname == "fread" and fparam and side_effect_free_ptr(n["inner"][1]) and const_of(a1) is None and const_of(a2) is None and qt(strip_casts(n["inner"][2])) == "int":
+                # fread(q, sz, n, f): n items of sz bytes
+                pe, fp = expr(n["inner"][1], scope)
+                sz, fs = expr(strip_casts(n["inner"][2]) if strip_casts(n["inner"][2]).get("kind") != "DeclRefExpr" else n["inner"][2], scope)
+                cnt, fc = expr(n["inner"][3], scope)
+                if fp.w or fp.io or fc.w or fc.io or fs.w or fs.io: raise Untranslatable("fread arguments with side effects")
+                f = fx_join(fx_join(fp, fs), fc); f.io = True
+                return "(EReadItems %s %s %s)" % (pe, sz, cnt), f
             if not (a0.get("kind") == "UnaryOperator" and a0.get("opcode") == "&" and const_of(a1) == 1 and const_of(a2) == 1 and fparam):
                 raise Untranslatable(cname + " other than (&x, 1, 1, f)")
             v = var_of(a0["inner"][0], scope)
@@ -631,6 +656,9 @@ def expr(n, scope):
                 es = elem_size(ta) * (1 if op == "+" else -1)
                 off = eb if es == 1 else "(EBin Mul (EConst %s) %s)" % (zlit(es), eb)
                 return "(EPtrAdd %s %s)" % (ea, off), fx_join(fa, fb)
+            if op == "*" and ta in SIZE_T and tb in SIZE_T and strip_casts(a).get("kind") != "IntegerLiteral" and strip_casts(b).get("kind") != "IntegerLiteral" \
+                    and strip_casts(a).get("kind") != "UnaryExprOrTypeTraitExpr" and strip_casts(b).get("kind") != "UnaryExprOrTypeTraitExpr":
+                return "(ESizeMul %s %s)" % (ea, eb), fx_join(fa, fb)      # two sizes that are both computed: 64-bit wrap-around, as the source does it
             if op == "*" and ta in SIZE_T and tb in SIZE_T:
                 return "(EBin Mul %s %s)" % (ea, eb), fx_join(fa, fb)      # a size from a count: checked as an int (faults beyond 2^31, where the source would still be fine)
             if op == "+" and ta in SIZE_T and tb in SIZE_T:
@@ -762,6 +790,16 @@ def stmt1(n, scope, declared):
         a = stmt(inner[1], scope, declared)
         b = stmt(inner[2], scope, declared) if len(inner) > 2 else "SSkip"
         return '(SSeq %s (SIf (EVar "%s") %s %s))' % (call_stmt(v, c, scope), v, a, b)
+    if k == "IfStmt" and len(n["inner"]) == 2 and unparen(n["inner"][0]).get("kind") == "BinaryOperator" and unparen(n["inner"][0]).get("opcode") == "&&" \
+            and assign_call(unparen(n["inner"][0])["inner"][1], scope):
+        # if (A && (x = g(...))) S  without else  is  if (A) { x = g(...); if (x) S }
+        cond = unparen(n["inner"][0])
+        del PENDING[:]
+        a_, fa = expr(cond["inner"][0], scope)
+        if PENDING: raise Untranslatable("a call in the left operand of &&")
+        v, c = assign_call(cond["inner"][1], scope)
+        body = stmt(n["inner"][1], scope, declared)
+        return '(SIf %s (SSeq %s (SIf (EVar "%s") %s SSkip)) SSkip)' % (a_, call_stmt(v, c, scope), v, body)
     if k == "IfStmt":
         inner = n["inner"]
         del PENDING[:]
